@@ -39,6 +39,14 @@ def fail(fn):
             DETAIL.append(fn())
         except Exception as e:  # pragma: no cover
             DETAIL.append(f"<detail failed: {e!r}>")
+    elif os.environ.get("VF_DEBUG"):
+        # debugging aid: print the failure text of a symbolic path (realises values)
+        try:
+            import sys
+
+            print("VF_DEBUG fail:", fn(), file=sys.stderr)
+        except BaseException as e:  # noqa
+            print("VF_DEBUG fail: <unprintable>", type(e).__name__, file=sys.stderr)
     return False
 
 
